@@ -559,7 +559,8 @@ func c33Aggregate(p *core.Prog, r *core.Report) {
 					continue
 				}
 				// a copy: append(nil-slice, field...)
-				if c, isCall := ast.Unparen(rs.Results[0]).(*ast.CallExpr); isCall && core.Builtin("append")(info, c) && c.Ellipsis.IsValid() && len(c.Args) == 2 && core.FieldOf(info, c.Args[1]) == fv && fv != nil {
+				// (seen through a single-definition temporary: `out := append(…); unlock; return out`)
+				if c, isCall := ast.Unparen(core.ResolveLocal(info, sf.Decl.Body, rs.Results[0])).(*ast.CallExpr); isCall && core.Builtin("append")(info, c) && c.Ellipsis.IsValid() && len(c.Args) == 2 && core.FieldOf(info, c.Args[1]) == fv && fv != nil {
 					ok = core.FieldOf(info, c.Args[0]) == nil
 				}
 			}
